@@ -166,3 +166,35 @@ check(
     ),
     assumptions=["reference type parser and codec are correct"],
 )
+
+check(
+    "C06", "hostile input: error, never crash or inconsistent column", "exploration",
+    rule=("rapid draws a valid encoding from the reference codec (block of 1-3 catalog columns; single column with state "
+          "prefix; one of 12 protocol messages at a drawn revision; stream of compressed frames) and applies 1-3 mutations "
+          "aimed by the encoder's field map: a count/length/offset/key/meta/version/mask/flag field set to old+-1, a random "
+          "value or one of 28 hostile constants (0, 127/128, 2^16+-1, caps+-1, 2^31, 2^32+-1, 2^63, 2^64-1...), bit flips, "
+          "byte-range deletion/duplication, splices from another block, truncation + padding; compressed frames get their "
+          "checksum recomputed so that the mutation reaches the decompressor (incl. ZSTD frames claiming GiB content sizes). "
+          "Decoded through typed targets of the same kinds, typed targets of other kinds, Results.Auto(), DecodeColumn, "
+          "ColLowCardinalityRaw/ColRaw, DecodeAware. Distinct = hash of mutated bytes + mode + targets. Non-trivial = the "
+          "mutation hit a structural field (not payload/name bytes), arbitrary-byte message inputs, or any compressed case."),
+    quick=[unit("codec", "^TestC06(Block|Column|Message|Compressed|Saved)", checks=12000, timeout=900,
+                ulimit_v=6 * 1024 * 1024, crash_oracle=True)],
+    thorough=[unit("codec", "^TestC06(Block|Column|Message|Compressed|Saved)", checks=400000, timeout=10000, shards=16,
+                   ulimit_v=6 * 1024 * 1024, crash_oracle=True)],
+    crash_is_violation=True,
+    replay_run="^TestC06Replay$",
+    manifest=dict(
+        text="Structure-aware mutation search with the semantic oracle inside the target: no panic (recovered => violation), "
+             "returns within a watchdog bound, the process is never killed by the runtime (run under ulimit -v 6 GiB with the "
+             "library's caps lowered through the verif hook; a dead worker is a violation whose replay is the case file written "
+             "before the decode), and on success every column reports the block's row count and every row accessor works for "
+             "every sampled index. Committed reproductions of fixed findings are replayed first.",
+        design_ref="DESIGN.md 4 C06",
+        note="Allocations up to cap x element width from in-cap fields are by design; caps lowered to 2^18 rows / 2^24 "
+             "string bytes through the verif-tagged hook. Row accessors are called for all indices up to 6000 rows, the first "
+             "and last 3000 beyond.",
+        technique="structure-aware mutation fuzzing (rapid-driven) with consistency oracle, process-level crash oracle under ulimit",
+    ),
+    assumptions=["reference encodings are valid starting points", "hook caps only lower limits the library already enforces"],
+)
